@@ -1,1 +1,70 @@
-From InvokeVerif Require Import Corr.C14Corr.
+(** C14 -- a timed-out command is killed and reported promptly; a timely one is
+    left alone.  Statements only; proofs in Proofs/C14_sm.v and
+    Proofs/RunnerSM_sweep.v, on the RunnerSM model (event scripts universally
+    quantified). *)
+From InvokeVerif Require Import Model.RunnerSM Spec.C08Spec Spec.C14Spec Corr.RunnerCorr.
+From InvokeVerif Require Import Proofs.RunnerSM_facts Proofs.C08_sm Proofs.C14_sm Proofs.RunnerSM_sweep.
+
+(** A timeout is in effect and expires while the command is still running (no
+    worker is made to fail, no interrupt, readers get EOF): it is killed and
+    CommandTimedOut is the outcome -- whatever [c_warn c] is. *)
+Theorem C14_timeout_kills_and_reports :
+  forall c script,
+    start_raises c = false -> c_timeout c = true -> fair c = true ->
+    has_exc script = false -> has_kbd script = false -> first_of script = ExpiredWhileRunning ->
+    s_pc (fst (run_sm c script)) = PDone OTimedOut /\ 1 <= n_kills (snd (run_sm c script)).
+Proof. exact timeout_kills_and_reports. Qed.
+
+(** "promptly" is FALSE when a descendant keeps a pipe open (F-C14b): killed, never reported *)
+Theorem C14_prompt_refuted :
+  exists c script, start_raises c = false /\ c_timeout c = true /\ first_of script = ExpiredWhileRunning /\
+    n_kills (snd (run_sm c script)) = 1 /\ s_pc (fst (run_sm c script)) = PHang.
+Proof. exact timeout_prompt_refuted. Qed.
+
+(** The command finishes first: normal outcome, nothing killed, timer disarmed.
+    FALSE at full strength (F-C14a): *)
+Theorem C14_timely_untouched_refuted :
+  exists c script code,
+    start_raises c = false /\ fair c = true /\ has_exc script = false /\ has_kbd script = false /\
+    first_of script = FinishedFirst /\ exit_code script = Some code /\
+    s_pc (fst (run_sm c script)) = PDone OTimedOut /\ n_kills_after_exit (snd (run_sm c script)) = 1.
+Proof. exact timely_untouched_refuted. Qed.
+
+(** ... true when the timer does not expire before the outcome is settled
+    (missing: an expiry between the exit and the [timed_out] check) *)
+Theorem C14_timely_untouched_partial :
+  forall c script code,
+    start_raises c = false -> fair c = true ->
+    has_exc script = false -> has_kbd script = false -> no_timer script = true ->
+    exit_code script = Some code ->
+    s_pc (fst (run_sm c script)) = PDone (normal_outcome c code) /\
+    n_kills (snd (run_sm c script)) = 0 /\ s_timer (fst (run_sm c script)) <> TArmed.
+Proof. exact timely_untouched_partial. Qed.
+
+(** Timeout source: the run() keyword if given, else the configured value (finite in shape) *)
+Theorem C14_timeout_source :
+  forall kwarg config, timeout_ok kwarg config (effective_timeout kwarg config) = true.
+Proof. exact timeout_source. Qed.
+
+(** Flagship shape, as a finite sweep (a TEST, not the property): 128
+    configurations x 2801 scripts of at most 4 events over a 7-event alphabet;
+    outside the two catalogued defect regions the model satisfies the spec
+    (including: the timed-out failure carries every read delivered). *)
+Theorem C14_run_meets_spec_bounded_4 :
+  sweep ok14 (configs true) (scripts_upto alphabet14 4) = true.
+Proof. exact sweep14_4. Qed.
+
+(** Non-vacuity *)
+Example C14_ex_expired :
+  let c := mkCfg false false true true false false false false in
+  let script := [EChunk WOut; ETimer; EChunk WOut; EEof WOut; EEof WErr] in
+  first_of script = ExpiredWhileRunning /\ has_exc script = false /\ has_kbd script = false /\
+  observe (run_sm c script) = mkSmObs (Some OTimedOut) 1 0 0 1 true [] false true true 2 0.
+Proof. vm_compute. auto. Qed.
+
+Example C14_ex_timely :
+  let c := mkCfg false false true false false false false false in
+  let script := [EChunk WOut; EExit 3%Z; EEof WOut; EEof WErr] in
+  no_timer script = true /\ exit_code script = Some 3%Z /\
+  observe (run_sm c script) = mkSmObs (Some OUnexpectedExit) 0 0 0 1 true [] false false true 1 0.
+Proof. vm_compute. auto. Qed.
